@@ -36,6 +36,7 @@ pub fn check(case: &Case, idx: &[Option<Meta>], exp: &Exp, rec: &RunRec) -> Vec<
             note(&mut v, "C18", format!("a panic was injected at {:?} but the macro returned {}", exp.panic_at, o.show()));
         }
         (Outcome::Panicked(m), false) => {
+            note(&mut v, "PANIC", format!("unexpected panic: {}", m));
             note(&mut v, "RES", format!("unexpected panic: {} (model expects {})", m, exp.outs.iter().map(|o| o.show()).collect::<Vec<_>>().join(" or ")));
         }
         (Outcome::Panicked(_), true) => {}
@@ -43,7 +44,9 @@ pub fn check(case: &Case, idx: &[Option<Meta>], exp: &Exp, rec: &RunRec) -> Vec<
             note(&mut v, "HUNG", m.clone());
         }
         (Outcome::Deadlock(m), _) => {
-            note(&mut v, "C09", format!("deadlock: {}", m));
+            if !rec.notes.iter().any(|n| n.prop == "C18") {
+                note(&mut v, "C09", format!("deadlock: {}", m));
+            }
         }
     }
     let hung = matches!(rec.outcome, Outcome::Hung(_) | Outcome::Deadlock(_));
